@@ -12,6 +12,20 @@ mod tests;
 use ff::Field;
 use CurveProjective;
 
+#[cfg(pairing_plus_verif)]
+pub mod verif {
+    use bls12_381::{Fq, Fq2};
+    pub use super::chain::{chain_p2m9div16, chain_pm3div4};
+    /// (A', B', Z) of the SSWU map for G1
+    pub fn g1_sswu_consts() -> (Fq, Fq, Fq) {
+        super::g1::verif_consts()
+    }
+    /// (A', B', Z) of the SSWU map for G2
+    pub fn g2_sswu_consts() -> (Fq2, Fq2, Fq2) {
+        super::g2::verif_consts()
+    }
+}
+
 /// Trait for mapping from base field element to curve point
 pub trait OSSWUMap: CurveProjective {
     /// Evaluate optimized simplified SWU map on supplied base field element
